@@ -338,6 +338,7 @@ class Engine:
         self.encoded = set()
         self.splits = []
         self.abs = {}
+        self.iabs = {}
         self.abs_keep = []
         self.exact_ops = 0
         self.inexact = []
@@ -388,6 +389,29 @@ class Engine:
         if r == z3.unknown:
             return True
         return r == z3.sat
+
+    def unique_value(self, st, v):
+        """the concrete integer v must have under the path condition of st, or None (two solver queries;
+        used only where the engine needs a concrete number, e.g. an allocation size)."""
+        if not isinstance(v, z3.ExprRef) or not v.is_int() or st.pc is False:
+            return None
+        self.stats['feas_queries'] += 2
+        s = self.solver
+        s.push()
+        try:
+            if st.pc is not True:
+                s.add(st.pc)
+            if s.check() != z3.sat:
+                return None
+            c = s.model().eval(v, model_completion=True)
+            if not z3.is_int_value(c):
+                return None
+            s.add(v != c)
+            if s.check() != z3.unsat:
+                return None
+            return c.as_long()
+        finally:
+            s.pop()
 
     def simp(self, v):
         if isinstance(v, z3.ExprRef):
@@ -581,7 +605,7 @@ class Engine:
                 if v == 0:
                     return 0
                 raise Unsupported('double bits read as integer')
-            if isinstance(v, z3.ExprRef) and v.is_real():
+            if isinstance(v, z3.ExprRef) and not z3.is_bool(v) and v.is_real():
                 raise Unsupported('double bits read as integer')
             if t.bits == 1 and isinstance(v, int) and not isinstance(v, bool):
                 return bool(v & 1)
@@ -634,8 +658,9 @@ class Engine:
                     'store' if store is not None else 'load', n, off, o.name or o.kind, o.size), False, where)
                 st.pc = False
                 return UNDEF
-            if o.freed:
-                self.oblige(st, 'ub', 'use after free', False, where)
+            if o.freed is not False:
+                # freed is False / True / the condition (z3 Bool) under which a merged state has freed the object
+                self.oblige(st, 'ub', 'use after free', False if o.freed is True else self.simp(z3.Not(o.freed)), where)
             if store is None:
                 return self.load_cell(st, o, off, ty, where)
             o = st.wobj(p.obj)
@@ -727,7 +752,8 @@ class Engine:
             if v >= 1 << (bits - 1):
                 v -= 1 << bits
             return v
-        self.oblige(st, 'wrap', what, self.fits(v, bits), where)
+        if not self.fits_by_bound(v, bits):
+            self.oblige(st, 'wrap', what, self.fits(v, bits), where)
         return v
 
     def val(self, st, fr, op):
@@ -808,7 +834,8 @@ class Engine:
                         g = self.simp(p_and(ga, gb)) if not isinstance(p_and(ga, gb), bool) else p_and(ga, gb)
                         if g is False:
                             continue
-                        if isinstance(pa.obj, int) and isinstance(pb.obj, int) and pa.obj != pb.obj:
+                        if pa.obj != pb.obj and not isinstance(pa.obj, tuple) and not isinstance(pb.obj, tuple):
+                            # two different objects, or an object and null: skip the pair when its guards cannot hold together
                             if not self.feasible(p_and(st.pc, g)):
                                 continue
                         v = self.binop(st, ins, pa, pb, where)
@@ -850,6 +877,8 @@ class Engine:
             r = self.simp(r)
             if isinstance(r, int):
                 return self.wrap(st, r, bits, where, '')
+            if self.fits_by_bound(r, bits):
+                return r
             if 'nsw' in fl:
                 self.oblige(st, 'ub', 'signed overflow in %s i%d' % (op, bits), self.fits(r, bits), where)
             else:
@@ -890,6 +919,8 @@ class Engine:
                 if conc:
                     return self.wrap(st, a << b, bits, where, '')
                 r = zint(a) * (1 << b)
+                if self.fits_by_bound(r, bits):
+                    return r
                 self.oblige(st, 'ub' if 'nsw' in fl else 'wrap', 'overflow in shl i%d' % bits, self.fits(r, bits), where)
                 return r
             raise Unsupported('shl by symbolic amount')
@@ -965,6 +996,48 @@ class Engine:
                 if a and b:
                     return (a[0] and b[0], max(a[1], b[1]))
         return None
+
+    def ibound(self, v, depth=0):
+        """cheap syntactic bound on |v| of an Int-valued term (None = unknown); used only to skip
+        overflow obligations that interval arithmetic already proves (sound: never adds a claim)."""
+        if isinstance(v, bool):
+            return 1
+        if isinstance(v, int):
+            return abs(v)
+        if not isinstance(v, z3.ExprRef) or depth > 200:
+            return None
+        if z3.is_bool(v):
+            return 1
+        if not v.is_int():
+            return None
+        i = self.iabs.get(v.get_id())
+        if i is not None:
+            return i if i >= 0 else None
+        r = None
+        if z3.is_int_value(v):
+            r = abs(v.as_long())
+        elif z3.is_app(v):
+            k = v.decl().kind()
+            if k == z3.Z3_OP_ITE:
+                a, b = self.ibound(v.arg(1), depth + 1), self.ibound(v.arg(2), depth + 1)
+                if a is not None and b is not None:
+                    r = max(a, b)
+            elif k in (z3.Z3_OP_ADD, z3.Z3_OP_SUB, z3.Z3_OP_MUL, z3.Z3_OP_UMINUS):
+                bs = [self.ibound(v.arg(j), depth + 1) for j in range(v.num_args())]
+                if all(x is not None for x in bs):
+                    if k == z3.Z3_OP_MUL:
+                        r = 1
+                        for x in bs:
+                            r *= x
+                    else:
+                        r = sum(bs)
+        self.iabs[v.get_id()] = r if r is not None else -1
+        self.abs_keep.append(v)
+        return r
+
+    def fits_by_bound(self, v, bits):
+        b = self.ibound(v)
+        return b is not None and b < (1 << (bits - 1))
 
     def track_exact(self, op, a, b, r, where):
         ia, ib = self.absinfo(a), self.absinfo(b)
@@ -1161,6 +1234,8 @@ class Engine:
                 return self.wrap(st, a, to.bits, where, '')
             # value must fit either the signed or the unsigned range of the target
             lo, hi = self.rng(to.bits)
+            if self.fits_by_bound(a, to.bits):
+                return a
             self.oblige(st, 'wrap', 'trunc to i%d changes the value' % to.bits,
                         z3.And(a >= lo, a < (1 << to.bits)), where)
             return self.simp(z3.If(a > hi, a - (1 << to.bits), a))
@@ -1305,6 +1380,17 @@ class Engine:
             return z3.If(a >= 0, a, -a)
         if base == 'expect':
             return args[0]
+        if base in ('ctlz', 'cttz'):
+            # count leading / trailing zeros: concrete operands only (std::__lg of a concrete length in std::sort)
+            a = args[0]
+            if not isinstance(a, int) or isinstance(a, bool) or t is None or t.kind != 'int':
+                raise Unsupported('%s of a symbolic value' % base)
+            u = self.to_unsigned(a, t.bits)
+            if u == 0:
+                return t.bits
+            if base == 'ctlz':
+                return t.bits - u.bit_length()
+            return (u & -u).bit_length() - 1
         if base == 'is':
             return False
         if base == 'objectsize':
@@ -1452,6 +1538,9 @@ class Engine:
             v = self.nondet('range', lo, hi)
             if not is_conc(v):
                 st.pc = p_and(st.pc, z3.And(v >= zint(lo), v <= zint(hi)))
+                if isinstance(lo, int) and isinstance(hi, int):
+                    self.iabs[v.get_id()] = max(abs(lo), abs(hi))
+                    self.abs_keep.append(v)
             return True, v
         if name == 'vf_grid_double':
             m = args[0]
@@ -1589,7 +1678,10 @@ class Engine:
                 m.mem[oid] = oa
                 continue
             o = MemObj(oa.size, oa.kind, oa.zero and ob.zero, oa.name)
-            o.freed = oa.freed or ob.freed
+            if oa.freed is ob.freed or (isinstance(oa.freed, bool) and isinstance(ob.freed, bool) and oa.freed == ob.freed):
+                o.freed = oa.freed
+            else:
+                o.freed = self.simp(z3.If(cond, zbool(oa.freed), zbool(ob.freed)))   # freed on one side only: keep the condition
             for off in set(oa.cells) | set(ob.cells):
                 ca, cb = oa.cells.get(off), ob.cells.get(off)
                 if ca is not None and cb is not None:
@@ -1829,6 +1921,8 @@ class Engine:
                 n2 = self.simp(args[1])
                 n = n * n2 if isinstance(n, int) and isinstance(n2, int) else None
             if not isinstance(n, int):
+                n = self.unique_value(st, n)   # symbolic term with a single possible value on this path
+            if not isinstance(n, int):
                 raise Unsupported('allocation of symbolic size')
             if n < 0:
                 n = 0
@@ -1839,8 +1933,8 @@ class Engine:
             if isinstance(p, Ptr) and p.obj is not None and not isinstance(p.obj, tuple):
                 o = st.mem.get(p.obj)
                 if o is not None:
-                    if o.freed:
-                        self.oblige(st, 'ub', 'double free', False, where)
+                    if o.freed is not False:
+                        self.oblige(st, 'ub', 'double free', False if o.freed is True else self.simp(z3.Not(o.freed)), where)
                     if o.kind != 'heap':
                         self.oblige(st, 'ub', 'free of non-heap object', False, where)
                     o = st.wobj(p.obj)
